@@ -128,6 +128,18 @@ fn minimiser<C: CI + Ord, const K: usize, S: KS + Ord>(ctx: &mut Ctx) {
             check!(ctx, ks.iter().map(|k| k.bs as u128).eq(ws.iter().map(|w| model::pack_u128(a.bits, w))), format!("kmers().sort()|{name}|wrong"), "{name} K={K}: sorted k-mers of {:?} differ from the colexicographically sorted windows", a.text(&codes));
             ctx.nontrivial(fp(&[b"min", name.as_bytes(), &[K as u8, pad as u8], &codes]));
         }
+        // minimiser / maximiser over the k-mers of long sequences (every third far-from-small length)
+        for (k, n) in huge_lengths(ctx, a.bits).into_iter().enumerate().filter(|(k, _)| (k + K) % 3 == 0) {
+            let codes = structured_codes(&mut ctx.rng, a, n, k);
+            let pad = (k + K) % noff;
+            let p = Padded::<C>::new(&mut ctx.rng, pad, &codes, 1);
+            let s = p.slice();
+            ctx.eval();
+            let wmin = codes.windows(K).min_by(|x, y| colex(x, y)).unwrap();
+            let wmax = codes.windows(K).max_by(|x, y| colex(x, y)).unwrap();
+            let r = observe(|| (s.kmers::<K>().min().map(|k| k.bs as u128), s.kmers::<K>().max().map(|k| k.bs as u128), s.kmers::<K>().count()));
+            check!(ctx, r == Ok((Some(model::pack_u128(a.bits, wmin)), Some(model::pack_u128(a.bits, wmax)), n - K + 1)), format!("kmers().min()|{name}|not-minimiser"), "{name} K={K}: min / max / count over the k-mers of a sequence of {n} symbols at pad {pad}: {:x?}, want {:x} / {:x} / {}", r, model::pack_u128(a.bits, wmin), model::pack_u128(a.bits, wmax), n - K + 1);
+        }
         let _ = S::NAME;
         cell!(ctx, "{name}/minimiser/K{K}");
     });
@@ -219,6 +231,32 @@ fn seq_order<C: CI>(ctx: &mut Ctx) {
                     ctx.sample(|| json!({"codec": name, "x": a.text(&x[..n.min(50)]), "y": a.text(&y[..n.min(50)]), "expected": format!("{want:?}"), "provenance": [h1 % 5, h2 % 5]}));
                 }
             }
+        }
+    });
+    ctx.group(&format!("{name}/seq-order-huge"), |ctx| {
+        // equal-length owned sequences of 2^10 .. 2^16 symbols (65 .. 2049 words): equal, and differing at the last /
+        // first / a block-seam / two positions (the later one decides), structured contents
+        for (k, n) in huge_lengths(ctx, a.bits).into_iter().enumerate() {
+            let x = structured_codes(&mut ctx.rng, a, n, k);
+            for v in 0..4usize {
+                let mut y = x.clone();
+                let at = [n - 1, 0, (n / 4096) * 4096 % n, n / 2][v];
+                y[at] = *codes.iter().find(|c| **c != x[at]).unwrap();
+                if v == 3 {
+                    // a second, earlier difference in the opposite direction must not matter
+                    let e = at / 2;
+                    y[e] = if colex(&[y[at]], &[x[at]]) == Ordering::Less { *codes.iter().max().unwrap() } else { *codes.iter().min().unwrap() };
+                }
+                let (h1, h2) = (k + v, k + 2 * v + 1);
+                let sx = build::<C>(ctx, &x, h1);
+                let sy = build::<C>(ctx, &y, h2);
+                ctx.eval();
+                let want = colex(&x, &y);
+                let got = sx.cmp(&sy);
+                check!(ctx, got == want && sy.cmp(&sx) == want.reverse() && sx.cmp(&sx.clone()) == Ordering::Equal, format!("Seq::cmp|{name}|equal-length|order≠colex"), "{name}: two sequences of {n} symbols differing at position {at}{}: cmp = {got:?}, colexicographic order is {want:?}", if v == 3 { " and an earlier one" } else { "" });
+            }
+            cell!(ctx, "{name}/seq-order-huge/2^{}", usize::BITS - n.leading_zeros());
+            ctx.nontrivial(fp(&[b"seqh", name.as_bytes(), &(n as u64).to_le_bytes(), &[k as u8]]));
         }
     });
     ctx.group(&format!("{name}/seq-order-total"), |ctx| {
